@@ -54,6 +54,35 @@ Theorem C08g_resolved : forall f t s t', walkstar f t s = Some t' -> forall x, I
 Proof. exact walkstar_resolved. Qed.
 Print Assumptions C08g_resolved.
 
+(* gomini, on the TRANSCRIPTION of rewrite (gomini/unify.go:100-112, GCore.v) over the reflecttools value model of C18
+   (struct fields, slice elements, Go map values, interface-typed slots - everything reflecttools.Map descends into):
+   in the answer, nothing reachable through those containers is a bound variable; an unbound variable stays its own
+   placeholder; the answer has the kind of the (walked) query - it is never a bare key, never another container.
+   The correspondence check runs this transcription (gunify over the goal's equations, then grewrite of the query)
+   against the real gomini.Run. *)
+Require GMK.Reflect GMK.GCore GMK.GCoreSpec.
+
+Theorem C08g_code_resolved : forall f x s r,
+  Reflect.wfb x = true -> GCoreSpec.gwf_sub s -> GCore.grewrite f x s = Some r ->
+  forall y, GCoreSpec.subval r y -> forall i, GCore.cast_var y = Some i -> GCore.gassv i s = None.
+Proof. exact GCoreSpec.grewrite_resolved. Qed.
+Print Assumptions C08g_code_resolved.
+
+Theorem C08g_code_kind : forall f x s r, GCore.grewrite (S f) x s = Some r ->
+  exists x', GCore.gwalk f x s = Some x' /\ Reflect.kind_of r = Reflect.kind_of x' /\
+             (GCore.cast_var x' <> None -> r = x').
+Proof. exact GCoreSpec.grewrite_kind. Qed.
+Print Assumptions C08g_code_kind.
+
+(* non-vacuity: a bound variable inside a Go MAP value and one inside a slice are both replaced, the unbound one stays *)
+Example C08g_code_nonvacuous :
+  let str := fun z => Reflect.GPtr (Reflect.GScalar 1 z) in
+  GCore.grewrite 20 (GCore.gvar 0)
+    [(0%N, Reflect.GStructPtr [Reflect.GMap false [(7%N, GCore.gvar 1); (8%N, GCore.gvar 2)]; Reflect.GSlice false [GCore.gvar 1]]);
+     (1%N, GCore.gvar 3); (3%N, str 42%Z)]
+  = Some (Reflect.GStructPtr [Reflect.GMap false [(7%N, str 42%Z); (8%N, GCore.gvar 2)]; Reflect.GSlice false [str 42%Z]]).
+Proof. reflexivity. Qed.
+
 Example C08_nonvacuous :
   reify_var 10 0%N (mkSt [(0%N, TPair (TVar 1%N) (TPair (TVar 2%N) (TVar 1%N))); (1%N, TVar 3%N)] 4%N)
   = Some (TPair (reify_name 0) (TPair (reify_name 1) (reify_name 0))).
